@@ -179,6 +179,9 @@ func c14Worker(c *Ctx, job int) JobResult {
 	if c.Thorough() {
 		bound = 3
 	}
+	if qb := j.sc.QuickBound; qb > 0 && !c.Thorough() {
+		bound = qb
+	}
 	if mb := j.sc.MaxBound; mb > 0 {
 		if c.Thorough() {
 			mb++
